@@ -136,8 +136,10 @@ def _check_buffer_values(ctx):
         stores = [e for e in ctx.E.primitives(g) if e.op == "W" and e.state == "CACHE"]
         cst = "buffer-value:ScratchDB.%s" % g.name
         # every call records its action: the store is on every path
+        def _same(a, b):
+            return a is b or (isinstance(a, ast.Expr) and a.value is b) or (isinstance(b, ast.Expr) and b.value is a)
         missing = [p for p in ctx.X.paths(g) if p.exit[0] != "raise" and not any(
-            ev.k == "stmt" and any(e.node is ev.node for e in stores) for ev in p.events)]
+            ev.k in ("stmt", "call") and any(_same(e.node, ev.node) for e in stores) for ev in p.events)]
         if stores and missing:
             ctx.bad("buffer-always:ScratchDB.%s" % g.name, g.loc(), "a path through %s returns without recording the action in the cache (last-write-wins would be lost)" % g.name, rule="EFF1")
         elif stores:
@@ -146,11 +148,23 @@ def _check_buffer_values(ctx):
             ctx.unsure(cst, g.loc(), "expected exactly one cache store, found %d" % len(stores))
             continue
         e = stores[0]
-        key_ok = isinstance(e.key, ast.Name) and e.key.id == g.params[1]
+        ekey, evalue = getattr(e, "key", None), getattr(e, "value", None)
+        call = e.node.value if isinstance(e.node, ast.Expr) else e.node
+        if isinstance(call, ast.Call) and isinstance(call.func, ast.Attribute):
+            # a store spelled as a dict method: cache.update({k: v}) with one literal pair is cache[k] = v
+            # (benign/scratchf-1); any other method form is not read by this table - a refusal, not a verdict
+            a = call.args
+            if call.func.attr == "update" and len(a) == 1 and not call.keywords and isinstance(a[0], ast.Dict) \
+                    and len(a[0].keys) == 1 and a[0].keys[0] is not None:
+                ekey, evalue = a[0].keys[0], a[0].values[0]
+            else:
+                ctx.unsure(cst, e.where(), "`%s`: a cache store through a dict method this table does not read" % util.norm_src(e.node), rule="EFF1")
+                continue
+        key_ok = isinstance(ekey, ast.Name) and ekey.id == g.params[1]
         if want == "value":
-            val_ok = isinstance(e.value, ast.Name) and len(g.params) > 2 and e.value.id == g.params[2]
+            val_ok = isinstance(evalue, ast.Name) and len(g.params) > 2 and evalue.id == g.params[2]
         else:
-            val_ok = isinstance(e.value, ast.Name) and _is_deleted_marker(ctx, e.value, g)
+            val_ok = isinstance(evalue, ast.Name) and _is_deleted_marker(ctx, evalue, g)
         if key_ok and val_ok:
             ctx.ok(cst, e.where(), "cache[key] = %s" % want, nontrivial=False).rule = "EFF1"
         else:
